@@ -14,6 +14,12 @@ current.SetClientHash through a real ServantProxy, the receiving server judged b
 endpoint lists, and over registry-fed proxies whose endpoints are blocked by the manager's status check after five
 unanswered calls and recover after an answered probe (the manager then edits its active list and calls Remove / Add on
 its selectors): the history judged is refresh(installed), remove(e), add(e), ... (harness/cmd/ringdrive/e2e_mgr.go).
+The registry of these scenarios is asked again by the manager's own refresher (10 ms ticker; the registry lets one query
+through per scripted tick) and replies in a random, never host-sorted order: with the same endpoints (step "tick": set
+unchanged, nothing may move -- before a failure, while an endpoint is blocked, after it has come back and sits at the end
+of the list), with a spare endpoint added / a healthy or a blocked one dropped (step "refresh": the list the manager reports
+is the new installed list).  spec/HashRing/Manager.tla is the design of that layer (MC_mgr*.cfg; the deviation "compare the
+unsorted reply with the stored sorted copy" must break its determinism property).
 """
 import json
 import os
@@ -30,6 +36,9 @@ MC_THOROUGH = [("ideal_t", 4), ("ideal_4h_t", 4), ("code_t", 3), ("ideal_port_t"
                ("code_q", 1), ("wide", 1)]
 # negative configurations: the named deviation must break the named invariant in the model
 MC_NEGATIVE = [("kf_collision", "InvRouting"), ("kf_removearg", "InvMember")]
+# the endpoint manager between registry and selectors (Manager.tla): design, and its named deviation
+MGR_CFG = "mgr"
+MGR_NEGATIVE = ("kf_tickunsorted", "PropModDeterminism")
 
 
 def load_ndjson(path):
@@ -99,6 +108,8 @@ def describe(b, uni, hist):
     for st in hist["steps"][:b["k"]]:
         if st["op"] == "refresh":
             ops.append("Refresh(%s)" % ",".join(uni["eps"][e - 1]["host"] for e in st["eps"]))
+        elif st["op"] == "tick":
+            ops.append("RegistryTick(same endpoints, other order)")
         else:
             d = uni["eps"][st["e"] - 1]
             ops.append("%s(%s:%d w=%d)" % (st["op"].capitalize(), d["host"], d["port"], d["weight"]))
@@ -163,6 +174,10 @@ def run(ctx):
     neg_futs = {c: pool.submit(tlc.run, ctx, SPEC, "MC_HashRing", cfg="MC_%s.cfg" % c, workers=1, timeout=900,
                                name="mc-" + c) for c, _ in MC_NEGATIVE}
 
+    mgr_f = pool.submit(tlc.run, ctx, SPEC, "Manager", cfg="MC_%s.cfg" % MGR_CFG, workers=1, timeout=900, name="mc-" + MGR_CFG)
+    mgr_neg_f = pool.submit(tlc.run, ctx, SPEC, "Manager", cfg="MC_%s.cfg" % MGR_NEGATIVE[0], workers=1, timeout=900,
+                            name="mc-" + MGR_NEGATIVE[0])
+
     # ---- 2. drive the real selectors
     exe = gobuild.build(ctx, "ringdrive")
     out = ctx.sub("corpus")
@@ -189,6 +204,12 @@ def run(ctx):
         elif rg.get("endpoint_blocked", 0) < 4 or rg.get("endpoint_recovered", 0) < 4:
             raise Inconclusive("vacuous end-to-end run: the registry-fed scenarios blocked %s and recovered %s endpoints"
                                % (rg.get("endpoint_blocked"), rg.get("endpoint_recovered")))
+        elif min(rg.get("refresh_same_set_after_a_recovery", 0), rg.get("refresh_changed_set", 0),
+                 rg.get("refresh_while_an_endpoint_is_blocked", 0)) < 4:
+            raise Inconclusive("vacuous end-to-end run: registry refreshes with the same set after a recovery %s, with a changed "
+                               "set %s, while an endpoint was blocked %s" % (rg.get("refresh_same_set_after_a_recovery"),
+                                                                             rg.get("refresh_changed_set"),
+                                                                             rg.get("refresh_while_an_endpoint_is_blocked")))
         unis += load_ndjson(os.path.join(out, "e2e_unis.ndjson"))
         hists += load_ndjson(os.path.join(out, "e2e_hists.ndjson"))
     nlook = sum(len(st["ans"]) for h in hists for st in h["steps"])
@@ -246,11 +267,33 @@ def run(ctx):
         mc[c] = {"expected_violation": inv, "found": True, "distinct": r.distinct, "generated": r.generated}
         mc_states += r.distinct
         mc_trans += r.generated
+    r = tlc.require_clean(mgr_f.result(), "Manager/" + MGR_CFG)
+    mc["manager_" + MGR_CFG] = {"distinct": r.distinct, "generated": r.generated, "depth": r.depth, "wall_s": round(r.wall, 1)}
+    mc_states += r.distinct
+    mc_trans += r.generated
+    r = mgr_neg_f.result()
+    if MGR_NEGATIVE[1] not in r.prop_violated:
+        raise Inconclusive("negative configuration %s: expected property %s to be violated by the named deviation, got %s\n%s"
+                           % (MGR_NEGATIVE[0], MGR_NEGATIVE[1], r.prop_violated, "\n".join(r.out.splitlines()[-30:])))
+    mc["manager_" + MGR_NEGATIVE[0]] = {"expected_violation": MGR_NEGATIVE[1], "found": True, "distinct": r.distinct,
+                                        "generated": r.generated}
+    mc_states += r.distinct
+    mc_trans += r.generated
     pool.shutdown()
 
     # ---- 5. verdicts
     by_sig = {}
+    # registry-fed histories: the reference's list is built from the operations alone, so once the real list has gone its
+    # own way (say, a registry tick re-ordered it) every later step of that history differs as a consequence: the first
+    # flagged step names the failure, the later ones are counted
+    first_k = {}
+    for b in bad:
+        if hists[b["h"] - 1]["label"].startswith("e2e-mgr"):
+            first_k[b["h"]] = min(first_k.get(b["h"], b["k"]), b["k"])
+    consequences = [b for b in bad if b["k"] > first_k.get(b["h"], b["k"])]
     for b in sorted(bad, key=lambda b: (b["h"], b["k"], b["i"])):
+        if b["k"] > first_k.get(b["h"], b["k"]):
+            continue
         h = hists[b["h"] - 1]
         uni = unis[h["u"] - 1]
         sig = signature(b, uni, res["cols"][h["u"] - 1])
@@ -258,8 +301,14 @@ def run(ctx):
             sig = sig.replace("C14:", "C14:e2e:", 1)
         if h["label"].startswith("e2e-mgr"):
             # registry-fed proxy: name what the endpoint manager did last (wording only; the judgement is TLC's)
-            sig += {"remove": ":after-endpoint-blocked", "add": ":after-endpoint-recovered"}.get(h["steps"][b["k"] - 1]["op"],
-                                                                                                 ":after-registry-refresh")
+            ops = [st["op"] for st in h["steps"][:b["k"]]]
+            if ops[-1] == "tick":
+                # what happened since the manager last installed a list names the class of the history
+                since = ops[max(i for i, o in enumerate(ops) if o == "refresh") + 1:-1]
+                sig += ":after-registry-tick-with-unchanged-set" + (
+                    "-following-a-recovery" if "add" in since else "-while-an-endpoint-is-blocked" if "remove" in since else "")
+            else:
+                sig += {"remove": ":after-endpoint-blocked", "add": ":after-endpoint-recovered"}.get(ops[-1], ":after-registry-refresh")
         by_sig.setdefault(sig, []).append(b)
         what = describe(b, uni, h)
         if b["cls"] == "kf-collision":
@@ -310,7 +359,8 @@ def run(ctx):
         "model_checking": mc,
         "mc_distinct_states": mc_states,
         "oracle": {"universes": len(unis), "histories": len(hists), "steps": nsteps, "lookups_judged": nlook,
-                   "flagged": len(bad), "flagged_by_signature": {s: len(v) for s, v in by_sig.items()},
+                   "flagged": len(bad), "flagged_in_later_steps_of_an_already_flagged_registry_history": len(consequences),
+                   "flagged_by_signature": {s: len(v) for s, v in by_sig.items()},
                    "universe_kinds": sorted({u["kind"] for u in unis}),
                    "ring_points_per_universe": [u["npoints"] for u in unis],
                    "shared_points": [[val(p), [unis[i]["eps"][e - 1]["host"] for e in eps]]
